@@ -69,6 +69,13 @@ pub mod synth {
     pub struct Charge {}
 
     #[quantity]
+    #[unit(Degree_Reaumur, "°R")]
+    #[unit(Degree_Rankine, "°R", "same symbol as Degree_Reaumur")]
+    #[unit(Degree_Delisle, "°De")]
+    /// no reference unit; two different units share a symbol
+    pub struct Heat {}
+
+    #[quantity]
     #[ref_unit(Quart, "Q", "reference unit without SI prefix")]
     #[unit(Milliquart, "mQ", MILLI, 0.001)]
     #[unit(Dozen_Quart, "dzQ", 12)]
@@ -122,3 +129,5 @@ PRESSURE.decl = ['Centibar', 'Pieze', 'Inch_Mercury', 'Atmosphere', 'Bar', 'Tech
 CHARGE = QtySpec("crate", "synth", "Charge", "Coulomb", [U("Coulomb", "C", "NONE", 1), U("Attocoulomb", "aC", "ATTO", F(1, 10 ** 18)),
                                                          U("Dozen_Attocoulomb", "daC", None, F(24, 10 ** 18)), U("Decifemtocoulomb", "dfC", None, F(1, 10 ** 16)), U("Femtocoulomb", "fC", "FEMTO", F(1, 10 ** 15))])
 BUCKET = QtySpec("crate", "synth", "Bucket", "Quart", [U("Quart", "Q", None, 1), U("Milliquart", "mQ", "MILLI", F(1, 1000)), U("Dozen_Quart", "dzQ", None, 12), U("Kiloquart", "kQ", "KILO", 1000)])
+HEAT = QtySpec("crate", "synth", "Heat", None, [U("Degree_Reaumur", "°R", None, None), U("Degree_Rankine", "°R", None, None), U("Degree_Delisle", "°De", None, None)])
+ALL = [PILE, STACK, TRI, TARIFF, HEAT, DOSE, CHARGE, BUCKET, PRESSURE]
